@@ -67,6 +67,14 @@ CONTRACTS.append(Contract(
     requires=['self.start <= self.stop'],
     raises={'ValueConstraintError': 'len(value) < self.start or len(value) > self.stop'},
     note='admits exactly the values whose size lies in [start, stop]'))
+# ... and the absence of a component, which WITH COMPONENTS shows to constraint sets (`a (SIZE (1..2) | ABSENT)`), has no size:
+# it is refused with the constraint error, never with the TypeError of len(None) (C08: that one came out of decode())
+CONTRACTS.append(Contract(
+    id='type.constraint::ValueSizeConstraint._testValue[absent-component]', file=F, qual='ValueSizeConstraint._testValue',
+    properties=P, params=dict(self=PObj('ValueSizeConstraint', start=PInt(), stop=PInt()), value=PConst(None), idx=PConst(None)),
+    requires=['self.start <= self.stop'],
+    raises={'ValueConstraintError': 'True'},
+    note='no value, no size: outside every SIZE constraint'))
 
 
 def setmodel(name):
